@@ -12,7 +12,7 @@ from framework import Result, finish, proof_obligations
 
 PROP = "C09"
 NEEDS = ["model/Values.v", "model/Eval.v", "model/Loader.v", "model/Serialize.v", "model/Unparse.v", "model/Skeleton.v", "proofs/SerializeP.v",
-         "proofs/UnparseP.v", "proofs/RoundtripP.v", "extract/Extract.v"]
+         "proofs/UnparseP.v", "proofs/RoundtripP.v", "extract/Extract.v", "model/Render.v", "proofs/RenderP.v"]
 EXTREME_F = [0.0, -0.0, 1.0, -1.5, 5e-324, 2.2250738585072014e-308, 1e300, -1e300, 1e-300, 1.7976931348623157e308, 0.1, 1 / 3, 123456789.123456789, 1e22, 1e-7, 1e16]
 EXTREME_I = [0, 1, -1, 7, 2 ** 31, -2 ** 31, 2 ** 53 + 1, 2 ** 62, -(2 ** 62)]
 
